@@ -405,9 +405,48 @@ FRONTENDS = [('rbql_csv', ['query_csv']), ('rbql_pandas', ['query_dataframe', 'q
              ('rbql_main', ['run_with_python_csv', 'run_with_python_sqlite', 'run_interactive_loop'])]
 
 
+def caller_object_stores(path):
+    """attribute stores on objects the caller handed over: `param.attr = …` for a parameter other than self / cls, and `self.F.attr = …` where the field F
+    was assigned from a parameter (the sqlite connection, the dataframe, the stream): the adapter modules configure their own objects only"""
+    tree = ast.parse(open(path).read())
+    fields = set()
+    for fn in ast.walk(tree):
+        if isinstance(fn, (ast.FunctionDef, ast.AsyncFunctionDef)):
+            params = {a.arg for a in fn.args.args + fn.args.kwonlyargs if a.arg not in ('self', 'cls')}
+            for n in ast.walk(fn):
+                if isinstance(n, ast.Assign) and isinstance(n.value, ast.Name) and n.value.id in params:
+                    for t in n.targets:
+                        if isinstance(t, ast.Attribute) and isinstance(t.value, ast.Name) and t.value.id == 'self':
+                            fields.add(t.attr)
+    hits = []
+    for fn in ast.walk(tree):
+        if isinstance(fn, (ast.FunctionDef, ast.AsyncFunctionDef)):
+            params = {a.arg for a in fn.args.args + fn.args.kwonlyargs if a.arg not in ('self', 'cls')}
+            for n in ast.walk(fn):
+                tg = n.targets if isinstance(n, (ast.Assign, ast.Delete)) else [n.target] if isinstance(n, (ast.AugAssign, ast.AnnAssign)) else []
+                for t in tg:
+                    for sub in ast.walk(t):
+                        if isinstance(sub, ast.Attribute) and isinstance(sub.ctx, (ast.Store, ast.Del)):
+                            b = sub.value
+                            if isinstance(b, ast.Name) and b.id in params:
+                                hits.append('%s (in %s)' % (ast.unparse(sub), fn.name))
+                            elif isinstance(b, ast.Attribute) and isinstance(b.value, ast.Name) and b.value.id == 'self' and b.attr in fields:
+                                hits.append('%s (in %s)' % (ast.unparse(sub), fn.name))
+                if isinstance(n, ast.Call) and isinstance(n.func, ast.Name) and n.func.id == 'setattr' and n.args:
+                    b = n.args[0]
+                    if (isinstance(b, ast.Name) and b.id in params) or (isinstance(b, ast.Attribute) and isinstance(b.value, ast.Name) and b.value.id == 'self' and b.attr in fields):
+                        hits.append('%s (in %s)' % (ast.unparse(n), fn.name))
+    return sorted(set(hits))
+
+
 def scan_frontends(pkg_dir):
     """the same footprint for the front-end modules (entry points: the library calls and the interactive loop of the command line)"""
-    out = {'writtenOnQueryPath': [], 'classLevelMutable': [], 'mutableDefaults': [], 'sharedInstancesUsed': [], 'moduleLevelMutable': [], 'globalsDeclared': []}
+    out = {'writtenOnQueryPath': [], 'classLevelMutable': [], 'mutableDefaults': [], 'sharedInstancesUsed': [], 'moduleLevelMutable': [], 'globalsDeclared': [], 'callerObjectsWritten': []}
+    for mod in ('rbql_csv', 'rbql_pandas', 'rbql_sqlite'):
+        try:
+            out['callerObjectsWritten'] += ['%s: %s' % (mod, h) for h in caller_object_stores(os.path.join(pkg_dir, mod + '.py'))]
+        except Exception as e:
+            out['callerObjectsWritten'].append('%s: <scan failed: %s>' % (mod, type(e).__name__))
     for mod, entry in FRONTENDS:
         path = os.path.join(pkg_dir, mod + '.py')
         try:
@@ -416,7 +455,8 @@ def scan_frontends(pkg_dir):
             out['writtenOnQueryPath'].append('%s: <scan failed: %s>' % (mod, type(e).__name__))
             continue
         for k in out:
-            out[k] += ['%s: %s' % (mod, x) for x in r[k]]
+            if k in r:
+                out[k] += ['%s: %s' % (mod, x) for x in r[k]]
     IMPORTED_MODULES.clear()
     return out
 
@@ -426,7 +466,7 @@ def lean_list(xs):
 
 
 def to_lean(r, src_path, fe=None):
-    fe = fe or {'writtenOnQueryPath': ['<front-ends not scanned>'], 'classLevelMutable': [], 'mutableDefaults': [], 'sharedInstancesUsed': []}
+    fe = fe or {'writtenOnQueryPath': ['<front-ends not scanned>'], 'classLevelMutable': [], 'mutableDefaults': [], 'sharedInstancesUsed': [], 'callerObjectsWritten': []}
     return '''-- GENERATED on every check run by tools/shared_state_scan.py from %s; do not edit.
 namespace Rbql.Generated
 
@@ -449,11 +489,13 @@ def frontendWrittenOnQueryPath : List String := %s
 def frontendClassLevelMutable : List String := %s
 def frontendMutableDefaults : List String := %s
 def frontendSharedInstancesUsed : List String := %s
+/-- attribute stores of the adapter modules (rbql_csv / rbql_pandas / rbql_sqlite) on objects the caller handed over (a parameter, or a field assigned from one) -/
+def frontendCallerObjectsWritten : List String := %s
 
 end Rbql.Generated
 ''' % (src_path, lean_list(r['moduleLevelMutable']), lean_list(r['globalsDeclared']), lean_list(r['writtenOnQueryPath']),
        lean_list(r['classLevelMutable']), lean_list(r['mutableDefaults']), lean_list(r['sharedInstancesUsed']),
-       lean_list(fe['writtenOnQueryPath']), lean_list(fe['classLevelMutable']), lean_list(fe['mutableDefaults']), lean_list(fe['sharedInstancesUsed']))
+       lean_list(fe['writtenOnQueryPath']), lean_list(fe['classLevelMutable']), lean_list(fe['mutableDefaults']), lean_list(fe['sharedInstancesUsed']), lean_list(fe.get('callerObjectsWritten', [])))
 
 
 if __name__ == '__main__':
